@@ -220,7 +220,8 @@ def terminate_all(ctx):
                 at = set()
                 for x in a.producer[1]["args"]:
                     at |= b.prov.operand_atoms(x)
-                sends_first = any(aw.callee in {r.fn_of(s).name for s in senders} and a.into_bb in b.reach_from(aw.into_bb) for aw in awaits(b))
+                sends_first = any(aw.callee in {r.fn_of(s).name for s in senders} and a.into_bb in b.reach_from(aw.into_bb) for aw in awaits(b)) or \
+                    any(tyname(sc[2]) == "TerminationMessage" and is_awaited(b, sc[0]) and a.into_bb in b.reach_from(sc[0]) for sc in send_calls(b))
                 argl = operand_local(a.producer[1]["args"][0]) if a.producer[1]["args"] else None
                 if argl is not None and re.search(r"Vec<async_std::task::JoinHandle<\(\)>>", b.locals[argl]["ty"]):
                     joined = True
